@@ -31,6 +31,7 @@ type c17iCase struct {
 	Comments []c17iComment `json:"comments"`
 	Target   string        `json:"target,omitempty"` // path of the import the patch removes
 	Op       string        `json:"op"`
+	ViaCLI   bool          `json:"via_cli,omitempty"` // run through the command line with --skip-import-processing
 
 	// build constraint lines, put in front of the file after it went
 	// through gofmt (which would rewrite them)
@@ -74,7 +75,12 @@ func c17iDraw(rt *rapid.T) *c17iCase {
 	if maybe("pkgtrail") {
 		fmt.Fprintf(&b, " // %s", tok("pkg-trailing", ""))
 	}
-	b.WriteString("\n\n")
+	b.WriteString("\n")
+	if rapid.IntRange(0, 3).Draw(rt, "pkgBelow") == 0 {
+		// a second comment tied to the package clause: on the line below it
+		b.WriteString(rapid.SampledFrom([]string{"//go:generate stringer -type=Kind ", "// see the package documentation "}).Draw(rt, "pkgBelowText") + tok("pkg-below", "") + "\n")
+	}
+	b.WriteString("\n")
 	if rapid.IntRange(0, 3).Draw(rt, "free1") == 0 {
 		fmt.Fprintf(&b, "// free-standing after the package clause %s\n\n", tok("free", ""))
 	}
@@ -162,6 +168,26 @@ func c17iDraw(rt *rapid.T) *c17iCase {
 }
 
 func evalC17i(cs *c17iCase) (found []c17iFinding, judged bool) {
+	if cs.ViaCLI {
+		// the command line with --skip-import-processing: the other way a
+		// rewritten file is turned into text
+		dir, cleanup := run.TempDir("c17i-")
+		defer cleanup()
+		_ = os.WriteFile(filepath.Join(dir, "p.patch"), []byte(cs.Patch), 0o644)
+		_ = os.WriteFile(filepath.Join(dir, "f.go"), []byte(cs.File), 0o644)
+		rc := run.CLI(dir, nil, "-p", "p.patch", "--print-only", "--skip-import-processing", "f.go")
+		out := string(rc.Stdout)
+		if rc.Exit != 0 || rc.StartErr != "" || rc.TimedOut || out == cs.File || !c14Parses(out) {
+			return nil, false
+		}
+		found = c17iJudge(cs, out)
+		for i := range found {
+			if !strings.HasPrefix(found[i].Sig, "build-constraint:") {
+				found[i].Sig += ":" + cs.Op + ":skip-import-processing"
+			}
+		}
+		return found, true
+	}
 	r := run.API("p.patch", []byte(cs.Patch), "f.go", []byte(cs.File))
 	if !r.OK() || string(r.Out) == cs.File {
 		return nil, false
@@ -276,6 +302,18 @@ func c17iJudge(cs *c17iCase, out string) (found []c17iFinding) {
 			if !strings.HasPrefix(l, "package subject") {
 				detached("not on the line of the package clause")
 			}
+		case "pkg-below":
+			// (gofmt may already have put a blank line above it in the input)
+			inLines := strings.Split(cs.File, "\n")
+			wasBelow := false
+			for j, l := range inLines {
+				if strings.Contains(l, c.Tok) && j > 0 && strings.HasPrefix(strings.TrimSpace(inLines[j-1]), "package subject") {
+					wasBelow = true
+				}
+			}
+			if wasBelow && (i == 0 || !strings.HasPrefix(strings.TrimSpace(lines[i-1]), "package subject")) {
+				detached("not on the line below the package clause")
+			}
 		case "pkg-doc":
 			if nextCode(i) != "package subject" && !strings.HasPrefix(nextCode(i), "package subject ") {
 				detached("not directly above the package clause")
@@ -356,6 +394,7 @@ func c17iRun(rt *rapid.T) {
 		return
 	}
 	cs.File = cs.buildLines + string(fm)
+	cs.ViaCLI = rapid.IntRange(0, 3).Draw(rt, "viaCLI") == 0
 	found, judged := evalC17i(cs)
 	if !judged {
 		c.Note("not-judged:import-section")
